@@ -21,7 +21,7 @@ class C15(Prop):
     RULE = ("library cases: merge_into over all 13 interval relations x zero/non-zero values (thorough: every pair with ends <= 4 "
             "x 16 value pairs, both orders, non-overlapping included); merge_sections_many on 1..5 streams whose breakpoints are drawn "
             "around bases 0, W-1, W, W+1, 2W-1, 2W, 2W+1, 3W (W = 50000) and at random, with values crossing one or several windows, "
-            "cancelling copies, explicit zeros, empty and early-ending streams, and a small share of malformed streams (error items, "
+            "cancelling copies, explicit zeros, empty and early-ending streams, 3..5 streams over the same bases holding 2^24 and +-1/+-2 (exact sum fits f32, a running f32 sum would not), and a small share of malformed streams (error items, "
             "unsorted/overlapping/empty values); fill / fill_start_to_end on sorted lists with raw f32 bit patterns, error items and "
             "out-of-contract start/end; tool cases: the built bedgraphtobigwig/bigwigmerge/bigwigtobedgraph binaries on 1..4 inputs "
             "(plus runs with 977..980 inputs for the chunked path) x 1..3 chromosomes (some missing from some inputs, sizes around the "
